@@ -48,7 +48,7 @@ func init() {
 			bt.Method = "assets.MsgUpdateParams"
 			p, err := app.AssetsKeeper.GetParams(ctx)
 			if err != nil || p == nil {
-				p = &assetstypes.Params{ExocoreLzAppAddress: w.Gateway.Eth.Hex(), ExocoreLzAppEventTopic: assetstypes.DefaultExocoreLzAppEventTopic}
+				p = &assetstypes.Params{ExocoreLzAppAddress: w.GatewayAddrHex(), ExocoreLzAppEventTopic: assetstypes.DefaultExocoreLzAppEventTopic}
 			}
 			msg = &assetstypes.MsgUpdateParams{Authority: auth, Params: *p}
 		}
